@@ -41,7 +41,7 @@ def conclude(prop, tier, seed, result, wall, replay=None):
     findings = load_findings()
     new = []
     known = {}
-    for v in result.violations:
+    for v in result.violations + PENDING:
         ident = v.ident()
         f = next((f for f in findings if matches(f, prop, ident)), None)
         if f is not None:
@@ -85,6 +85,9 @@ def conclude(prop, tier, seed, result, wall, replay=None):
 
 # ----------------------------------------------------------------------------- machine checks
 
+PENDING = []      # violations found while the runs are put together; conclude() reports them with the check's own
+
+
 def machine_runs(prop, fams, tier, seed, replay, indented=True, require=()):
     """MC of the specification + real runs for each family; returns the runs.
     A violated invariant in the *model* is a tool error (the specification contradicts itself)."""
@@ -122,6 +125,10 @@ def machine_runs(prop, fams, tier, seed, replay, indented=True, require=()):
         raise ToolError("nothing to run")
     cov = {}
     for r in runs:
+        for c in r.upanic_bad:
+            c.fam = r.fam
+            PENDING.append(Violation(prop, "UserPanic", "a user function panics in this parse; the caller of parse() must get that panic, "
+                                     "it gets: %s" % json.dumps(c.act.get("res"))[:200], c))
         for a, n in r.tlc["coverage"].items():
             cov[a] = cov.get(a, 0) + n
     missing = [a for a in require if cov.get(a, 0) == 0]
@@ -142,6 +149,7 @@ def base_coverage(runs, cov, cases, nontrivial, rule, validated):
         "families": [r.fam for r in runs],
         "tlc_seconds": round(sum(r.tlc["secs"] for r in runs), 1),
         "action_counts": {a: n for a, n in sorted(cov.items()) if n},
+        "user_panic_cases": sum(len(r.upanic) for r in runs),
         "exhaustive": True,
         "samples": props.sample_cases(cases, 3),
     }
@@ -271,6 +279,10 @@ def p_boundaries(prop, c):
     for f, ln, _ in a.get("advs", []):
         if f not in b or f + ln not in b:
             return Violation(prop, "OnBoundary", "cursor advance from %d by %d leaves the character boundaries" % (f, ln), c)
+    # the traced entry point (parse_with_trace) is an entry point like any other: no panic there either
+    for k in ("rec", "ind"):
+        if a.get(k + "_same") is False and isinstance(a.get(k), dict) and "panic" in json.dumps(a.get(k)):
+            return Violation(prop, "NoPanic", "the parser panics when it is traced: %s" % json.dumps(a.get(k))[:300], c)
     if not a["res"]["ok"] and a["res"]["errp"] not in b:
         return Violation(prop, "OnBoundary", "error position %d is not a character boundary" % a["res"]["errp"], c)
     if a["res"]["ok"]:
@@ -290,7 +302,7 @@ def check_C04(tier, seed, replay):
         "U+1F600} and code-point range end points x all inputs up to the bound plus seeded random Unicode strings; "
         "non-trivial = input containing a multi-byte character",
         lambda c: any(x > 127 for x in c.inp),
-        require=("Lit", "Range", "AnyChar", "CallChar", "CallExtern"),
+        require=("Lit", "Range", "AnyChar", "CallChar", "CallExtern"), indented=True,
         assumptions=["memory safety itself is not decidable by this technique: decided is the precondition of the "
                      "single unsafe operation (every advance on a boundary and in bounds, hook H1 asserts it)"])
     judge_long(res, "C04", runs)
